@@ -593,6 +593,9 @@ class SymSession(BaseSession):
     def set_fail_push(self, k):
         self.repo.fail_push_at = k
 
+    def set_refuse_pushes(self, k):
+        self.repo.fail_push_from = k
+
     def third_party_tag_delete(self, tag):
         self.repo.remote_tags.pop(tag, None)
 
@@ -682,6 +685,12 @@ class RealSession(BaseSession):
                 if getattr(sess, 'fail_push_at', None) is not None:
                     sess.push_seen += 1
                     if sess.push_seen == sess.fail_push_at:
+                        from bert_e.lib.simplecmd import CommandError
+                        raise CommandError('Command %s returned with code 128: fatal: the remote end hung up '
+                                           'unexpectedly' % command)
+                if getattr(sess, 'fail_push_from', None) is not None:
+                    sess.push_seen_all = getattr(sess, 'push_seen_all', 0) + 1
+                    if sess.push_seen_all >= sess.fail_push_from:
                         from bert_e.lib.simplecmd import CommandError
                         raise CommandError('Command %s returned with code 128: fatal: the remote end hung up '
                                            'unexpectedly' % command)
@@ -868,6 +877,9 @@ class RealSession(BaseSession):
 
     def set_fail_push(self, k):
         self.fail_push_at = k
+
+    def set_refuse_pushes(self, k):
+        self.fail_push_from = k
         self.push_seen = 0
 
     def third_party_tag_delete(self, tag):
